@@ -8,7 +8,7 @@ blocks = re.split(r"^=== ", text, flags=re.M)[1:]
 history = {}
 for b in blocks:
     head, _, body = b.partition("\n")
-    m = re.match(r"(C\d+)/(m\d) → checks (.*)", head)
+    m = re.match(r"(C\d+)/(m\d+) → checks (.*)", head)
     if not m:
         continue
     prop, mk, checks = m.group(1), m.group(2), m.group(3).split()
